@@ -216,6 +216,8 @@ TIMELINE = [("twop", ("b1", "e1"), {}), ("twop", ("e1", "b2"), {"safe_area": 5, 
             ("nested", ("s1b", "s3e"), {"bg_color": sp.NamedColors.black.value, "color": sp.NamedColors.white.value}),
             ("nested", ("pb", "s1e"), {}), ("brset", ("ab", "ae"), {}), ("styled", ("pb", "pe"), {"color": sp.NamedColors.red.value}),
             ("styled", ("ab", "ae"), {"preserve_text_align": True}), ("moving", ("ab", "ae"), {}), ("ruby", ("rub", "rue"), {})]
+# (two regions with SYMBOLIC intervals cannot go through the filter in the proof tier: it keys a dict by a tuple that holds the interval,
+#  and hashing a symbolic number is outside pyvc's fragment -- the shape `tworegions` is used with concrete near-equal times in rtc/c16.py)
 
 
 def all_harnesses():
